@@ -28,7 +28,7 @@ THEOREMS = [
     'C12.locale_texts_ok', 'C12.sentLine_le', 'C12.action_reply_single', 'C12.replyCall_normal', 'C12.unchecked_counterexample',
     'C12.mores_off_single', 'C12.nested_arg', 'C12.fits_512_call', 'C12.storeMask_cases', 'C12.nested_keywords_leak',
     'C12.relayed_len', 'C12.fits_512_relayed', 'C12.stale_belief_overflows',
-    'C12.byteTextWrap_total', 'C12.ircWrap_total', 'C12.reply_total', 'C12.attrs_reset_between_replies', 'C12.same_queue_order',
+    'C12.byteTextWrap_total', 'C12.ircWrap_total', 'C12.reply_total', 'C12.attrs_reset_between_replies', 'C12.same_queue_order', 'C12.mores_key_stable',
     # lean/LimnoriaModel/C12/LinkC06.lean: blen = C06.utf8Len = driver bytes (C11), sentLine = C06.truncate
     'C12.blen_eq_driver_bytes', 'C12.takeBytes_eq_cutToBytes', 'C12.limits_agree', 'C12.sentLine_eq_truncate',
     'C12.sentLine_driver_bytes', 'C12.relayed_driver_bytes', 'C12.makeReply_command',
@@ -503,12 +503,20 @@ class Live(object):
             self.true_prefix = want
         bot.drain(b)
 
+    def isupport(self, casemapping):
+        """the server's 005 line announcing its CASEMAPPING"""
+        b = self.b
+        b.irc.feedMsg(b.ircmsgs.IrcMsg(':irc.example.org 005 %s CASEMAPPING=%s :are supported by this server'
+                                       % (self.true_nick, casemapping)))
+        bot.drain(b)
+
     def target(self, inp):
         """a private message is addressed to the bot's current nick"""
         return self.true_nick if inp['target'] == 'test' else inp['target']
 
     def run(self, inp, T):
         b = self.b
+        self.isupport('rfc1459')
         b.callbacks.IrcObjectProxy._mores.clear()
         self.vp.VtLong.TEXT = inp['text']
         kw = dict(inp['kw'])
@@ -548,6 +556,8 @@ class Live(object):
         owner = inp.get('owner', 'A')
         stored = b.callbacks.IrcObjectProxy._mores.get(who[owner].split('!', 1)[1])
         stored = None if stored is None else list(stored)
+        if inp.get('isupport_between'):
+            self.isupport(inp['isupport_between'])
         anick = inp['prefix'].split('!', 1)[0]
         steps = []        # (who, nick argument or None, code, messages)
 
@@ -723,6 +733,8 @@ def live_case(I, L, inp, kind='live'):
         if len(pre_msgs) != 1 or not pre_msgs[0].args[1].endswith(want_pre):
             fails.append((None, 'the first reply of the invocation came out as %r' % [str(m) for m in pre_msgs]))
     if inp['kw'].get('sendImmediately'): tags.append('live:sendImmediately')
+    if inp.get('isupport_between'): tags.append('live:005-casemapping-between')
+    if any(ch in inp['prefix'] for ch in '~[]\\'): tags.append('live:rfc1459-special-requester')
     if unchecked:
         parts.append('unchecked')
     elif shape == 'error':
@@ -970,7 +982,8 @@ def gen_live_input(r, thorough=False):
     if r.random() < 0.35:
         cfg['keep_userhost'] = True
     nick = r.choice(['al', 'alice', 'Bob_', 'n' * 16, 'x' * 30, 'zoé' if r.random() < 0.3 else 'carol', 'Al[i]ce'])
-    prefix = '%s!%s@%s' % (nick, 'id' * r.randint(1, 4), r.choice(['host', 'a.b.c.example.org', 'h' * 40]))
+    ident = r.choice(['id' * r.randint(1, 4)] * 3 + ['~al', '~Bob', 'a[b]c', 'x\\y~'])
+    prefix = '%s!%s@%s' % (nick, ident, r.choice(['host', 'a.b.c.example.org', 'h' * 40, 'Host[1].example']))
     target = r.choice(['#c', '#chan', '#' + 'c' * 30, '#ünï', 'test', 'test', '@#chan', '+#c'])
     prefixB = '%s!%s@%s' % (r.choice(['bob', 'B[o]b', 'robert_']), r.choice(['bo', 'rob']), r.choice(['host.b', 'b.example.org']))
     kw = {}
@@ -1047,6 +1060,10 @@ def gen_live_input(r, thorough=False):
         inp['kwinner'] = kwinner
     if shape != 'reply':
         inp['shape'] = shape
+    if r.random() < 0.3:
+        # a 005 (this network reconnecting, or another network) announcing a CASEMAPPING arrives between the first
+        # message of the reply and the `more` commands
+        inp['isupport_between'] = r.choice(['ascii', 'ascii', 'strict-rfc1459', 'rfc1459'])
     if shape in ('reply', 'action') and r.random() < 0.15:
         kw['sendImmediately'] = True       # irc.sendMsg: the fast queue of Irc.takeMsg
     if shape == 'reply' and r.random() < 0.15:
